@@ -1191,6 +1191,9 @@ def correspond(ctx):
             ctx.count("reread-raises/" + type(r.rr).__name__)
         ctx.case((sc.spec.text(), sc.events, repr(enc_calls(sc.ctor)), repr(enc_calls(sc.ops))), nontrivial(sc, r),
                  sample=dict(scenario=sc.describe(), code=real[:300], model=model[:300]))
+        if real != model or (not isinstance(r.w, Exception) and obs != "ok"):
+            # where model and code part ways is where the oracle search looks first
+            ctx.__dict__.setdefault("suspects", []).append((sc, ses, ses.steps.index((sc, sl))))
         if real != model:
             ctx.brk("correspondence-broken", f"{sc.describe()} (session paths {list(sl)}): code `{shorten(real)}` vs model "
                                              f"`{shorten(model)}`",
@@ -1322,7 +1325,7 @@ def oracle(sc, r):
     if cls == "oscar":
         org = r.origins
         code_org = getattr(o, "event_origin_", None)
-        if code_org is not None and not r.placeholder and [int(x) for x in code_org] != list(org):
+        if code_org is not None and not r.ctor_removed_all and [int(x) for x in code_org] != list(org):
             return key("origin"), f"event_origin_ {list(code_org)} != positions of the held events in the input file {org}"
         if not r.placeholder:
             foot_in = spec.lines()[3:]
@@ -1571,6 +1574,19 @@ def search(ctx, budget_s):
     first = [Scenario.from_json(d["input"]["scenario"]) for d in corpus() if "scenario" in d["input"]] + targeted(rng)
     sessions = [Session.from_json(d["input"]["session"]) for d in corpus() if "session" in d["input"]]
     sessions += path_sequences(rng)
+    # first of all the cases on which model and code differed in the correspondence run (alone, then in their session)
+    for sc, ses, k in getattr(ctx, "suspects", [])[:12]:
+        n += 1
+        res, r = oracle_scenario(sc)
+        if r is None:
+            continue
+        ctx.count("oracle/suspect-from-correspondence")
+        if res:
+            report(ctx, sc, res, seen)
+        else:
+            res = session_oracle(ses, k)
+            if res:
+                report(ctx, sc, res, seen, ses, k)
     # single round trips on fresh paths (corpus, targeted), then sessions
     for sc in first:
         n += 1
